@@ -67,10 +67,10 @@ def make_judge(okey=None, vkey=None, relevant=None, whole=False):
             if o.startswith("known:"):
                 v["ok"] = False
                 v["known"] = o[6:]
-                v["why"] = "oracle %s: known class %s" % (okey, o[6:])
+                v["oracle_why"] = "oracle %s: known class %s" % (okey, o[6:])
             elif o != "1":
                 v["ok"] = False
-                v["why"] = "oracle %s on the real output: %s" % (okey, o)
+                v["oracle_why"] = "oracle %s on the real output: %s" % (okey, o)
         return v
     return judge
 
